@@ -716,15 +716,14 @@ UnitsPtr modelsEquivalentUnits(const ModelPtr &model, const UnitsPtr &units)
 
 void updateComponentsVariablesUnitsNames(const std::string &name, const ComponentPtr &component, const UnitsPtr &units)
 {
-    for (size_t variableIndex = 0; variableIndex < component->variableCount(); ++variableIndex) {
-        auto variable = component->variable(variableIndex);
-        if (component->isImport()) {
-            auto importModel = component->importSource()->model();
-            auto importComponent = importModel->component(component->importReference());
-            variable = importComponent->variable(variable->name());
-        }
-        if (variable->units()->name() == name) {
-            variable->setUnits(units);
+    // The variables of an import element are placeholders: the variables they stand for belong to a library model, which
+    // must not be modified, and get their units when that element is instantiated.
+    if (!component->isImport()) {
+        for (size_t variableIndex = 0; variableIndex < component->variableCount(); ++variableIndex) {
+            auto variable = component->variable(variableIndex);
+            if ((variable->units() != nullptr) && (variable->units()->name() == name)) {
+                variable->setUnits(units);
+            }
         }
     }
     for (size_t index = 0; index < component->componentCount(); ++index) {
